@@ -461,6 +461,23 @@ def call(eng, ctx, cp, self_ty, trait, generics, args, env):
         if r is not NO_MODEL:
             return r
 
+    # ---- ranges -----------------------------------------------------------------------------------
+    if sn == "RangeInclusive" and m == "new":
+        return Adt("RangeInclusive", None, [args[0], args[1]])
+    if sn in ("Range", "RangeInclusive", "RangeFrom", "RangeTo", "RangeToInclusive") and m == "contains":
+        from interp import binop
+        r, x = deref(args[0]), deref(args[1])
+        conds = []
+        if sn in ("Range", "RangeInclusive", "RangeFrom"):
+            conds.append(binop("Le", r.fields[0], x))
+        if sn in ("Range", "RangeTo"):
+            conds.append(binop("Lt", x, r.fields[-1]))
+        if sn in ("RangeInclusive", "RangeToInclusive"):
+            conds.append(binop("Le", x, r.fields[-1]))
+        out = conds[0]
+        for c in conds[1:]:
+            out = binop("BitAnd", out, c)
+        return out
     # ---- Option / Result -------------------------------------------------------------------------
     if sn == "Option":
         o = deref(args[0]) if args else None
@@ -857,14 +874,6 @@ def vec_model(eng, ctx, cp, self_ty, trait, m, args):
             if len(o.elems) > len(v.elems):
                 return mk_bool(False)
             return mk_bool(bytes_eq(ctx, VecV(v.elems[:len(o.elems)], None, "vec"), o))
-    if m == "chars" and v.elems is not None:
-        if any(is_sym(b.v) for b in v.elems):
-            # symbolic text is ASCII by construction (stated bound): one char per byte
-            return IterV([Sc("char", z3.ZeroExt(24, b.v) if is_sym(b.v) else int(b.v)) for b in v.elems])
-        txt = bytes(int(b.v) for b in v.elems).decode("utf-8", "replace")
-        return IterV([Sc("char", ord(c)) for c in txt])
-    if m == "bytes" and v.elems is not None:
-        return IterV(list(v.elems))
     return NO_MODEL
 
 
